@@ -236,6 +236,45 @@ pub struct RunScript {
     /// RLIMIT_NOFILE of the monorail process of this run (None = the world's / inherited)
     #[serde(default)]
     pub nofile: Option<u64>,
+    /// before a child scripted to fail is told to exit (after its hold), wait until no thread of the monorail
+    /// process is runnable over several consecutive samples: whatever the children wrote has then been read
+    /// and flushed, however loaded the machine is (a wall-clock pause alone would encode timing)
+    #[serde(default)]
+    pub quiesce_before_failures: bool,
+}
+
+/// No thread of `pid` is runnable (R) or in uninterruptible I/O (D) in `need` consecutive samples taken `gap`
+/// apart; gives up after `max`. Returns whether quiescence was seen.
+pub fn wait_quiescent(pid: i32, need: usize, gap: Duration, max: Duration) -> bool {
+    let t0 = std::time::Instant::now();
+    let mut quiet = 0;
+    while t0.elapsed() < max {
+        let mut busy = false;
+        if let Ok(rd) = std::fs::read_dir(format!("/proc/{}/task", pid)) {
+            for e in rd.flatten() {
+                if let Ok(st) = std::fs::read_to_string(e.path().join("stat")) {
+                    if let Some(i) = st.rfind(')') {
+                        let state = st[i + 1..].trim_start().chars().next().unwrap_or('?');
+                        if state == 'R' || state == 'D' {
+                            busy = true;
+                        }
+                    }
+                }
+            }
+        } else {
+            return true; // gone
+        }
+        if busy {
+            quiet = 0;
+        } else {
+            quiet += 1;
+            if quiet >= need {
+                return true;
+            }
+        }
+        std::thread::sleep(gap);
+    }
+    false
 }
 impl RunScript {
     pub fn simple(opts: RunOpts) -> RunScript {
@@ -257,6 +296,7 @@ impl RunScript {
             env_actions: vec![],
             fs_write_fail: None,
             nofile: None,
+            quiesce_before_failures: false,
         }
     }
     pub fn behav_for(&self, command: &str, target: &str) -> Option<&Behav> {
@@ -304,6 +344,8 @@ pub struct RunTrace {
     pub unknown_starts: Vec<String>,
     pub exit: Option<ProcExit>,
     pub env_actions_done: usize,
+    /// the machine never let the monorail process come to rest before a scripted failure
+    pub quiesce_failed: bool,
     pub hang: Option<String>,
     pub killed: bool,
     pub log: Vec<String>,
@@ -856,6 +898,14 @@ pub fn drive_run_l(w: &mut World, actor: &str, sc: &RunScript, hang: Duration, l
                             continue 'outer;
                         }
                         after_hold = None;
+                        if sc.quiesce_before_failures && code != 0 {
+                            let pid = ctl.procs[proc_id].pid;
+                            let ok = wait_quiescent(pid, 8, Duration::from_millis(3), Duration::from_secs(5));
+                            tr.log.push(format!("quiesce before failure: {}", if ok { "quiet" } else { "gave up" }));
+                            if !ok {
+                                tr.quiesce_failed = true;
+                            }
+                        }
                         let hold_pipes = sc.behav_for(&tr.helpers[i].command, &tr.helpers[i].target).map(|b| b.hold_pipes_ms).unwrap_or(0);
                         if hold_pipes > 0 {
                             ctl.send(conn, &format!("FORKHOLD {}\n", hold_pipes));
